@@ -14,9 +14,21 @@ import htmltools
 from htmltools._core import _tagchilds_to_tagnodes, is_tag_child, is_tag_node
 from htmltools._util import flatten
 
+class Flex:
+    """a class whose instances are tag nodes or not depending on the INSTANCE: one that carries a `_repr_html_`
+    attribute is a self-rendering object, a bare one is an unsupported value (validity is a property of the value,
+    not of its type)"""
+
+    def __init__(self, s=None):
+        if s is not None:
+            self.s = s
+            self._repr_html_ = lambda: s
+
+
 # values that are neither iterable nor tag nodes (index = `bad k`)
-BAD_POOL = [object(), 1j, decimal.Decimal("1.5"), len, Ellipsis, fractions.Fraction(1, 3), int, NotImplemented]
-BAD_SRC = ["object()", "1j", "decimal.Decimal('1.5')", "len", "Ellipsis", "fractions.Fraction(1, 3)", "int", "NotImplemented"]
+BAD_POOL = [object(), 1j, decimal.Decimal("1.5"), len, Ellipsis, fractions.Fraction(1, 3), int, NotImplemented, Flex()]
+BAD_SRC = ["object()", "1j", "decimal.Decimal('1.5')", "len", "Ellipsis", "fractions.Fraction(1, 3)", "int", "NotImplemented",
+           "Flex()  # bare instance of a class whose other instances carry _repr_html_"]
 
 
 # ------------------------------------------------------------------ realise
@@ -38,6 +50,8 @@ def realize_arg(a, this=None):
     if k == "num":
         return realize_num(a[1], a[2])
     if k == "node":
+        if a[1][0] == "robj" and len(a[1][1]) % 2 == 0:
+            return Flex(a[1][1])           # a valid instance of the same class as `bad 8`
         return realize(a[1])
     if k == "list":
         return [realize_arg(x) for x in a[1]]
@@ -96,6 +110,8 @@ def canon_arg(x, _stack=()):
         if isinstance(x, TagList):
             return ("tl", [canon_arg(e, st) for e in x.data])
         return ("list" if isinstance(x, list) else "tuple", [canon_arg(e, st) for e in x])
+    if isinstance(x, Flex):
+        return ("node", ("robj", x.s)) if hasattr(x, "_repr_html_") else ("bad", len(BAD_POOL) - 1)
     c = canon(x)
     if c[0] != "raw":
         return ("node", c)
